@@ -243,7 +243,14 @@ def retry(chk, crate):
     tests = f.bool_switches(lambda e: is_call(e, "Option::<T>::is_none") and any(inner_path(x) for x in walk(e)))
     # the same test spelled as a match on the slot: `match src.inner.as_mut() { Some(t) => .., None => <connect> }`
     from client import option_switches
-    for obb, ox, some_t, none_t in option_switches(f, lambda x: any(inner_path(y) for y in walk(x))):
+    def is_slot(x):
+        # the tested Option *is* the slot (through &, as_ref, as_mut), not some value computed from it
+        x = strip_ref(x)
+        while x[0] == "call" and x[2] and x[1].endswith(("Option::<T>::as_mut", "Option::<T>::as_ref", "Option::<T>::as_deref_mut",
+                                                         "Option::<T>::as_deref")):
+            x = strip_ref(x[2][0])
+        return inner_path(x)
+    for obb, ox, some_t, none_t in option_switches(f, is_slot):
         if obb not in [x[0] for x in tests]:
             tests.append((obb, ox, none_t, some_t))
     if chk.require(len(cc) == 1 and len(tests) == 1, "C09-b/reconnect-shape", "into_stream_with_retry",
